@@ -122,9 +122,28 @@ pub fn gen_addr(sim: &Sim, special: &[u16]) -> u16 {
 
 pub fn gen_packet(sim: &Sim, sizes: SizeCfg, special_addrs: &[u16]) -> Packet {
     let len = gen_len(sim, sizes);
-    let data = gen_payload(sim, len);
+    let mut data = gen_payload(sim, len);
     let is_error = sim.chance(25);
     let device_address = gen_addr(sim, special_addrs);
+    // A link must not care what a packet means: some payloads are the library's own event
+    // encodings (all sixteen kinds), some merely begin with an event code.
+    match sim.draw(24) {
+        23 => {
+            let kind = sim.draw(crate::events::N_KINDS);
+            if let Ok(p) = crate::events::gen_event(sim, kind, device_address, SizeCfg { large_pct: 0, huge_pct: 0 }).to_packet(sim.u8_any()) {
+                data = p.data.to_vec();
+                sim.count("payload_is_an_event_encoding");
+            }
+        }
+        22 => {
+            if data.len() >= 2 {
+                data[0] = 0x00;
+                data[1] = sim.draw(16) as u8;
+                sim.count("payload_begins_with_an_event_code");
+            }
+        }
+        _ => {}
+    }
     Packet {
         is_error,
         device_address,
